@@ -70,6 +70,10 @@ func genC03(x *Ctx) *c03Scen {
 			for d := 0; d < depth; d++ {
 				segs = append(segs, c03Segs[tp.G(len(c03Segs))])
 			}
+			if depth > 0 && sc.Router == "curly" && tp.Chance(150) {
+				// custom verb on the last segment (CurlyRouter only): /jobs/{id}:run next to /jobs/all:run
+				segs[depth-1] = []string{"{v}:run", "a:run", "b:run", "{v}:stop"}[tp.G(4)]
+			}
 			if depth > 0 && tp.Chance(120) {
 				segs[depth-1] = "{rest:*}"
 			}
@@ -307,9 +311,12 @@ func c03CheckDominance(x *Ctx, sc *c03Scen, w *World, p Probe, got Outcome) {
 		return true
 	}
 	selFull := FullPath(selSvc.Root, sel.Path)
+	if strings.Contains(selFull, ":run") || strings.Contains(selFull, ":stop") {
+		return // the reference matcher does not model custom verbs; order independence (oracle A) still covers them
+	}
 	for _, sp := range sc.Svcs {
 		for _, r := range sp.Routes {
-			if r.ID == selID || r.Method != "GET" {
+			if r.ID == selID || r.Method != "GET" || strings.Contains(r.Path, ":run") || strings.Contains(r.Path, ":stop") {
 				continue
 			}
 			full := FullPath(sp.Root, r.Path)
